@@ -616,6 +616,8 @@ class Interp:
       raise AnalysisError('continue is not modelled')
     if isinstance(s, ast.For):
       return self.for_(s, st)
+    if isinstance(s, ast.While):
+      return self.while_(s, st)
     raise AnalysisError(f'statement not modelled: {type(s).__name__} at line {s.lineno}')
 
   # ---- loops
@@ -674,6 +676,65 @@ class Interp:
     if s.orelse:
       res = self.block(s.orelse, st)
     return res
+
+  def while_(self, s, st):
+    """`while test: body` - one symbolic iteration from a havocked head under the assumption that the test holds;
+    afterwards everything the body assigns or mutates is unknown and the test is known to be false."""
+    assigned = self._assigned(s.body)
+    pre = st.clone()
+    head = st.clone()
+    self._havoc_names(head, assigned, s, 'h')
+    n0 = len(head.events)
+    mutated = set()
+    probe = head.clone()
+    try:
+      rel = self.cond(s.test, probe)
+      for f in probe.facts.assume(rel):
+        p0 = probe.clone()
+        p0.facts = f
+        for p, _ in self.block(s.body, p0):
+          mutated |= {e[1] for e in p.events[n0:] if e[0] == 'dict-store'} | {e[2] for e in p.events[n0:] if e[0] == 'in-loop' and e[3] == 'dict-store'}
+    except NeedSplit:
+      raise AnalysisError('while test needs a case split before the loop')
+    for d in head.dicts():
+      if d.oid in mutated:
+        d.havoc()
+    rel = self.cond(s.test, head)
+    body_paths = []
+    for f in head.facts.assume(rel):
+      h2 = head.clone()
+      h2.facts = f
+      body_paths.extend(self.block(s.body, h2))
+    for p, rv in body_paths:
+      if rv is not NotImplemented:
+        raise AnalysisError('return inside a loop is not modelled')
+    st.events.append(('loop', s, head, body_paths, None, n0, pre))
+    self._havoc_names(st, assigned, s, 'x')
+    for d in st.dicts():
+      if d.oid in mutated:
+        d.havoc()
+    for p, _ in body_paths:
+      for e in p.events[n0:]:
+        if e[0] == 'dict-store':
+          st.events.append(('in-loop', s, e[1], 'dict-store', e))
+        elif e[0] == 'in-loop':
+          st.events.append(e)
+    out = []
+    try:
+      nrel = Facts.negate(self.cond(s.test, st))
+      fs = st.facts.assume(nrel)
+    except AnalysisError:
+      fs = [st.facts]
+    for f in fs or [st.facts]:
+      st2 = st.clone() if len(fs) > 1 else st
+      st2.facts = f
+      out.append((st2, NotImplemented))
+    if s.orelse:
+      res = []
+      for st2, _ in out:
+        res.extend(self.block(s.orelse, st2))
+      return res
+    return out
 
   def _rebind(self, st, s, it):
     self._bind_target(s.target, it, st, s)
